@@ -32,3 +32,8 @@ package translator
 //@ interface RequestTranslator.TransformResponse
 //@ interface RequestTranslator.TransformRequest
 //@   ensures res1 == nil ==> res0 != nil
+
+//@ func ExtractModelName
+//@   property C05 C20
+//@   safety
+//@   ensures res1 == nil ==> res0 != ""
